@@ -437,6 +437,12 @@ func (fx *Fx) checkInvariants(st *State, ls *LoopSpec, ord int, kind string) {
 		g := fx.specEval(st, fx.pkg, nil, nil, inv.Expr)
 		fx.oblige(st, kind, fmt.Sprintf("loop%d:%s", ord, inv.Label), g, inv.Text)
 	}
+	if kind == "inv-init" {
+		for _, en := range ls.Entries {
+			g := fx.specEval(st, fx.pkg, nil, nil, en.Expr)
+			fx.oblige(st, "entry", fmt.Sprintf("loop%d:%s", ord, en.Label), g, en.Text)
+		}
+	}
 }
 
 func (fx *Fx) checkSteps(st *State, ls *LoopSpec, ord int) {
